@@ -222,7 +222,7 @@ fn strlit(s: &str) -> String {
 }
 
 pub fn c14(ctx: &Ctx) -> PropResult {
-    let alphabet = ["a", "b", " ", "é", "中", "😀"];
+    let alphabet = ["a", "b", " ", "é", "中", "😀", "Σ"];
     let max = if ctx.quick() { 3 } else { 4 };
     let strings = crate::props::all_strings(&alphabet, max);
     let pats: Vec<String> = crate::props::all_strings(&alphabet, if ctx.quick() { 1 } else { 2 });
@@ -250,6 +250,11 @@ pub fn c14(ctx: &Ctx) -> PropResult {
             let (a, b) = if ctx.quick() { (nums[rng.below(nums.len())], nums[rng.below(nums.len())]) } else { (nums[k / nums.len()], nums[k % nums.len()]) };
             cases.push(run_case(format!("{pre}s <- {sl}\nDISPLAY(\"[\" + SUBSTRING(s, {a}, {b}) + \"]\")\n"), "substring"));
         }
+    }
+    // the one context-sensitive case mapping: capital sigma at the end of a word, with case-ignorable and uncased neighbours
+    for t in ["ΑΣ", "ΑΣ.", "ΑΣ'Β", "ΑΣ'", "Σ", "ΣΑ", "ΑΣ Β", "ὈΔΥΣΣΕΎΣ", "A\u{301}Σ", "ΑΣ\u{ad}Β", "ΑΣ\u{ad}", "1Σ", "ʰΣ", "aΣ", "ΑΣΣ", "ΣΣ", "Α.Σ", "Α:Σ", "Α’Σ", "ΑΣ’Β", "ǅΣ", "ªΣ", "ΑΣ1", "ΑΣ_", "ΑΣ\u{300}", "Α\u{200d}Σ", "ΑΣ中", "中Σ", "ΑΣ😀", "ⅣΣ", "ⓐΣ"] {
+        let l = strlit(t);
+        cases.push(run_case(format!("{pre}s <- {l}\nDISPLAY(TO_LOWER(s))\nDISPLAY(TO_UPPER(s))\nDISPLAY(TO_LOWER(s + s))\nDISPLAY(TO_LOWER(s + \" \" + s))\nDISPLAY(TO_UPPER(TO_LOWER(s)))\n"), "final-sigma"));
     }
     // number / boolean text
     for t in ["1", "1.5", "-2", "+3", ".5", "5.", "1e3", "1E-2", "inf", "-Infinity", "NaN", "nan", " 1", "1 ", "", "0x10", "1_0", "true", "false", "TRUE", "True", " true", "1e400", "-1e-400", "0.1", "9007199254740993", "１"] {
